@@ -435,6 +435,22 @@ def d4(cx: Cx, ob: Ob) -> None:
         ob.undecide("_file_helper: no assignment to row[column] found")
     appends = [(c, ev, ctx) for c, ev, ctx in s.calls("append") if ctx.loops]
     if appends:
+        # every row that is read is written again: a path of the row loop that skips the append drops the row
+        lp_ = appends[0][2].loops[-1]
+        for p_ in lp_.body or []:
+            if p_.out is not None and p_.out[0] == "raise":
+                continue
+            has_app = any(ev2.kind == "expr" and op(ev2.a) == "call" and callee_name(ev2.a) == "append" and ev2.a[2] == (lp_.a,) for ev2 in p_.events)
+            if not has_app:
+                gs_ = [g for g in p_.events if g.kind == "guard"]
+                ob.violate(
+                    fn.qualname,
+                    where(fn, gs_[-1].line if gs_ else lp_.line),
+                    f"a row for which `{('' if gs_[-1].b else 'not ') + show(gs_[-1].a)[:50] if gs_ else '?'}` is not appended to the rows that are written back: the file loses that line (a blank line, a short row) although no cell of it was converted",
+                    witness="a file with a blank line in the middle comes back one line shorter",
+                    detail="row-dropped",
+                )
+                break
         c, ev, ctx = appends[0]
         if c[2] != (ctx.loops[-1].a,):
             ob.violate(fn.qualname, where(fn, ev.line), "the row collected for writing is not the row that was read", detail="row")
